@@ -1,6 +1,7 @@
 import GrmVerif.Model.Cert
 import GrmVerif.Model.CertLA
 import GrmVerif.Model.Recog
+import GrmVerif.Model.Term
 import GrmVerif.Drive.Util
 /-!
 Driver for C01 (and the shared part of C04). Request: `<grammar> <automaton> ninputs (len tok…)*
@@ -85,6 +86,12 @@ def handle (args : List Nat) : String :=
         let badLA := Cert.failingLA P.G P.A (An.nullable.contains ·) (An.first.contains ·)
         if badLA.isEmpty then [] else [s!"V fail certLA clauses={badLA}"]
     let vs := v1 ++ v3 ++ v2
-    "\n".intercalate ((if vs.isEmpty then ["V ok"] else vs) ++ ms)
+    -- termination certificate (premise of `C01.lr_terminates`): counted, not judged — a table with a
+    -- precedence-resolved conflict may legitimately fail it (known finding under C07)
+    let nTerm := 3 * (P.A.nstates + P.G.nrules) + 20
+    let term := if Term.termCheck P.G P.A nTerm then "C termination_certified 1"
+      else if conflictFree && !precResolved P.G P.A then "C termination_not_certified_conflict_free_table 1"
+      else "C termination_not_certified_table_with_conflicts 1"
+    "\n".intercalate ((if vs.isEmpty then ["V ok"] else vs) ++ ms ++ [term])
 
 end GrmVerif.Drive.C01
